@@ -636,7 +636,13 @@ func insertionOrderRule(c *Ctx, r *Report, rule string) {
 		if len(sets) == 1 {
 			call := sets[0]
 			keyOK := false
-			if ta, ok := call.Call.Args[1].(*ssa.TypeAssert); ok {
+			keyArg := call.Call.Args[1]
+			if ex, ok := keyArg.(*ssa.Extract); ok && ex.Index == 0 {
+				if ta, ok := ex.Tuple.(*ssa.TypeAssert); ok && ta.CommaOk {
+					keyArg = ta // key, ok := keyToken.(string)
+				}
+			}
+			if ta, ok := keyArg.(*ssa.TypeAssert); ok {
 				if ex, ok := ta.X.(*ssa.Extract); ok {
 					if tc, ok := ex.Tuple.(*ssa.Call); ok && calleeKey(&tc.Call) == "(*encoding/json.Decoder).Token" {
 						keyOK = true
